@@ -388,7 +388,7 @@ def run_update(ck_ob, mod, label):
     return n + 3
 
 
-def run_update_small(ck_ob, mod, label, maxlen=48):
+def run_update_small(ck_ob, mod, label, maxlen=100):
     """tinyjambu_hash_update for every buffer position 0..15 and EVERY input length 0..maxlen, each evaluated as one straight path (position
     and length concrete, data symbolic): whatever the loop structure, the compressions must be those of the byte stream
     (buffered bytes || input) cut into 16-byte blocks, and the state afterwards (chaining value, left-over bytes, position) that of the
@@ -645,7 +645,7 @@ def premises(ck, mod, rule, label="H/N0", perm=True):
     return n
 
 
-def run_update_both(ck, ck_ob, mod, label, maxlen=48):
+def run_update_both(ck, ck_ob, mod, label, maxlen=100):
     """the small-length rule (shape-independent, lengths 0..maxlen) and the per-class rule (all lengths, needs a recognised shape).  A shape the
     per-class rule does not recognise is exit 2 unless the small-length rule has already refuted a concrete (position, length)"""
     n = 0
